@@ -5,7 +5,10 @@
 package c17
 
 import (
+	"context"
+	"errors"
 	"fmt"
+	"os"
 	"runtime"
 	"slices"
 	"sync"
@@ -368,6 +371,77 @@ var anyKeyProp = vp.Register(vp.Prop[AnyKeyCase]{
 })
 
 func TestAnyKey(t *testing.T) { vp.Run(t, anyKeyProp) }
+
+// lateCtx is a context whose deadline has passed but which is not done yet:
+// the state every deadline context is in between the instant of its deadline
+// and the moment its timer has run.  Here it lasts until the test ends it.
+type lateCtx struct {
+	done     chan struct{}
+	mu       sync.Mutex
+	err      error
+	deadline time.Time
+}
+
+func (c *lateCtx) Deadline() (time.Time, bool) { return c.deadline, true }
+func (c *lateCtx) Done() <-chan struct{}       { return c.done }
+func (c *lateCtx) Value(any) any               { return nil }
+func (c *lateCtx) Err() error {
+	c.mu.Lock()
+	defer c.mu.Unlock()
+	return c.err
+}
+
+// TestLateContext: on a full semaphore, Acquire with a context that is past
+// its deadline but not done yet neither succeeds (no slot is free) nor fails
+// (the context is not done): it returns the context's error once the context
+// is done.  Deterministic; both build variants.
+func TestLateContext(t *testing.T) {
+	if sh, _ := vp.Shard(); sh != 0 || os.Getenv("VP_COLD") != "" {
+		t.Skip("deterministic: shard 0 only")
+	}
+	errLate := errors.New("late: the context's own error")
+	for capacity := 0; capacity <= 3; capacity++ {
+		for _, past := range []time.Duration{0, time.Nanosecond, time.Hour} {
+			vp.Eval("c17.late-context")
+			c := map[string]any{"cap": capacity, "deadline_ago_ns": int64(past)}
+			s := syncutil.NewChanSemaphore(uint(capacity))
+			for i := 0; i < capacity; i++ {
+				if err := s.Acquire(context.Background()); err != nil {
+					vp.Fail(t, "c17.late-context", c, fmt.Errorf("Acquire %d of %d on a fresh semaphore returned %v", i+1, capacity, err))
+					return
+				}
+			}
+			ctx := &lateCtx{done: make(chan struct{}), deadline: time.Now().Add(-past)}
+			res := make(chan error, 1)
+			go func() { res <- s.Acquire(ctx) }()
+			select {
+			case err := <-res:
+				vp.Fail(t, "c17.late-context", c, fmt.Errorf("semaphore of capacity %d with %d slots held: Acquire with a context that is past its deadline but not done (Done open, Err nil) returned %v; no slot is free and the context is not done", capacity, capacity, err))
+				return
+			case <-time.After(20 * time.Millisecond):
+			}
+			ctx.mu.Lock()
+			ctx.err = errLate
+			ctx.mu.Unlock()
+			close(ctx.done)
+			select {
+			case err := <-res:
+				if err != errLate {
+					vp.Fail(t, "c17.late-context", c, fmt.Errorf("semaphore of capacity %d, full: Acquire returned %v once its context was done, want the context's error %v", capacity, err, errLate))
+					return
+				}
+			case <-time.After(3 * time.Minute):
+				vp.Fail(t, "c17.late-context", c, fmt.Errorf("HANG: Acquire has not returned 3 min after its context was done"))
+				return
+			}
+			for i := 0; i < capacity; i++ {
+				s.Release()
+			}
+		}
+	}
+	vp.Class("late-context:past-deadline-not-done")
+	vp.NonTrivialN("c17.late-context", 12)
+}
 
 // HotKeyCase: very many Get calls for ONE key of ONE OnceConstructor (a hot
 // key in a long-running server, e.g. a per-name logger fetched on every
